@@ -67,6 +67,22 @@ Theorem C06_unlisted_kinds :
 Proof. exact unlisted_kinds. Qed.
 Print Assumptions C06_unlisted_kinds.
 
+(* column NAMES: no name other than "HED" is special -- in particular a sidecar that annotates
+   the BIDS timing columns "onset" / "duration" themselves is listed like any other column
+   (short corollary of the two kinds theorems; other reserved-looking names -- sample,
+   response_time, Levels, Description, ... -- are covered by the same general theorems and are
+   exercised as an input dimension by the harness). *)
+Theorem C06_timing_columns_listed :
+  forall cols sc c kv,
+  c = name_onset \/ c = name_duration ->
+  mem c cols = true -> assoc c sc = Some (JDict kv) ->
+  (forall s, assoc hed_key kv = Some (JStr s) -> memc ch_hash s = true ->
+             assoc c (transformers_of cols sc) = Some (XValue s)) /\
+  (forall entries, assoc hed_key kv = Some (JDict (str_entries entries)) ->
+             assoc c (transformers_of cols sc) = Some (XCat entries)).
+Proof. exact timing_columns_listed. Qed.
+Print Assumptions C06_timing_columns_listed.
+
 (* the complete table: every name, every entry shape (incl. malformed entries, which the code
    lists as identity columns -- [column_xform] spells out the remaining cases) *)
 Theorem C06_listed_columns :
